@@ -32,8 +32,8 @@ ASSUMPTIONS = [
     "encodings searched: raw, percent-encoded, base64 of the value and of user:password, JSON-escaped",
     "a canary is a 20+ character random token, so an accidental match is impossible",
 ]
-MIN_EVALUATIONS = {"quick": 60, "thorough": 600}
-MIN_NONTRIVIAL = {"quick": 50, "thorough": 500}
+MIN_EVALUATIONS = {"quick": 40, "thorough": 400}
+MIN_NONTRIVIAL = {"quick": 40, "thorough": 350}
 REACH_FLOORS = {"routes_exercised": 60, "artefact_bytes_scanned": 100000, "unsanitized_runs_with_canaries_found": 3}
 SHARD_TIMEOUT = {"quick": 900, "thorough": 5400}
 
